@@ -24,6 +24,26 @@ def small_scenarios(pid):
     S["cont-max1"] = ["O pool 1", "O wi 1", "O wi 2", "S pool_create 1 1", "S submit 1 1", "R wi 1 1 1 submit_cont 2 1", "R wi 2 2 1 pool_put 1"]
     S["2items-max2"] = ["O pool 1", "O wi 1", "O wi 2", "S pool_create 1 2", "S submit 1 1", "S submit 2 1", "R wi 1 2 1 pool_put 1"]
     S["resubmit"] = ["O pool 1", "O wi 1", "O wi 2", "S pool_create 1 1", "S submit 1 1", "R wi 1 2 1 submit 2 1", "R wi 2 2 1 pool_put 1"]
+    # a continuation asks for a thread while the owner starts one itself (thread_needed must re-check the limit)
+    S["cont-race-max2"] = ["O pool 1", "O wi 1", "O wi 2", "O wi 3", "O tm 1", "O tm 2", "S pool_create 1 2", "S submit 1 1",
+                           "S tm_reg 1 1 0 1000", "S tm_reg 2 1 1 0",
+                           "R wi 1 1 1 submit_cont 2 1", "R wi 1 1 1 wait_flag 1", "R tm 1 0 1 submit 3 1", "R tm 2 0 1 set_flag 1",
+                           "R wi 2 1 0 wait_flag 1", "R wi 3 1 0 wait_flag 1", "R wi 3 2 1 pool_put 1"]
+    # the owner is busy in a callback while a work function posts thread_needed, then submits itself
+    S["cont-owner-busy"] = ["O pool 1", "O wi 1", "O wi 2", "O wi 3", "O tk 1", "O tm 2", "S pool_create 1 2", "S submit 1 1",
+                            "S tk_reg 1", "S tm_reg 2 1 1 0",
+                            "R wi 1 1 1 submit_cont 2 1", "R wi 1 1 1 set_flag 2", "R wi 1 1 1 wait_flag 1",
+                            "R tk 1 0 1 wait_flag 2", "R tk 1 0 1 submit 3 1", "R tm 2 0 1 set_flag 1",
+                            "R wi 2 1 0 wait_flag 1", "R wi 3 1 0 wait_flag 1", "R wi 3 2 1 pool_put 1"]
+    # the pool is saturated by blocked work functions while more is submitted and the pool is put
+    S["saturated-put"] = ["O pool 1", "O wi 1", "O wi 2", "O tm 2", "S pool_create 1 1", "S submit 1 1", "S tm_reg 2 1 1 0",
+                          "R wi 1 1 1 wait_flag 1", "S submit 2 1", "S pool_put 1", "R tm 2 0 1 set_flag 1"]
+    S["saturated-late"] = ["O pool 1", "O wi 1", "O wi 2", "O tm 1", "O tm 2", "S pool_create 1 1", "S submit 1 1", "S tm_reg 1 1 0 1000",
+                           "S tm_reg 2 1 1 0", "R wi 1 1 1 wait_flag 1", "R tm 1 0 1 submit 2 1", "R tm 2 0 1 set_flag 1",
+                           "R wi 2 2 1 pool_put 1"]
+    S["cont-race-max1"] = ["O pool 1", "O wi 1", "O wi 2", "O wi 3", "O tk 1", "S pool_create 1 1", "S tk_reg 1", "R tk 1 0 1 submit 1 1",
+                           "S pool_create 1 1", "R wi 1 1 1 yield", "R wi 1 2 1 submit 2 1", "R wi 2 1 1 submit_cont 3 1", "R wi 2 1 1 yield",
+                           "R wi 3 1 0 yield", "R wi 3 2 1 pool_put 1"]
     S["put-early"] = ["O pool 1", "O wi 1", "O wi 2", "S pool_create 1 2", "S submit 1 1", "S submit 2 1", "S pool_put 1"]
     S["put-empty"] = ["O pool 1", "S pool_create 1 2", "S pool_put 1"]
     S["null-pool"] = ["O wi 1", "O wi 2", "S submit 1 0", "S submit 2 0", "R wi 1 2 1 submit 1 0"]
@@ -50,13 +70,20 @@ def random_work_script(rnd, sid, pid, method):
     for i in range(1, first + 1):
         L.append("S submit %d %d" % (i, rnd.choice([1, 1, 1, 2 if two else 1, 0 if rnd.random() < 0.3 else 1])))
     put_planned = False
+    blocked_any = False
     for i in range(1, nwi + 1):
         # work-function reactions
         if rnd.random() < 0.35:
             j = rnd.randint(1, nwi)
             L.append("R wi %d 1 %d submit_cont %d 1" % (i, rnd.choice([1, 0]), j))
-        if rnd.random() < 0.2:
-            L.append("R wi %d 1 0 %s" % (i, rnd.choice(["yield", "slow 0 1000", "slow 11 0"])))
+        if rnd.random() < 0.3:
+            # a work function that stays busy until the owner says so
+            L.append("R wi %d 1 0 wait_flag 1" % i)
+            blocked_any = True
+        if rnd.random() < 0.45:
+            L.append("R wi %d 1 0 %s" % (i, rnd.choice(["yield", "yield", "yield", "slow 0 1000", "slow 11 0"])))
+            if rnd.random() < 0.4:
+                L.append("R wi %d 1 0 yield" % i)
         # completion reactions
         c = rnd.random()
         if c < 0.4:
@@ -69,6 +96,8 @@ def random_work_script(rnd, sid, pid, method):
         L += ["O tm 1", "S tm_reg 1 1 %d 0" % rnd.choice([0, 1, 12, 25]), "R tm 1 0 1 pool_put 1"]
         if two:
             L.append("R tm 1 0 1 pool_put 2")
+    if blocked_any:
+        L += ["O tm 2", "S tm_reg 2 1 %d 0" % rnd.choice([1, 3, 30]), "R tm 2 0 1 set_flag 1"]
     if rnd.random() < 0.15:
         L.append("S pool_put 1")
     if pid == "C13" and rnd.random() < 0.4:
